@@ -488,7 +488,7 @@ func ruleR06cd(c *Ctx) {
 				case *ssa.Send:
 					if x.X == job {
 						nSend++
-						sendCells = append(sendCells, chanCell(x.Chan))
+						sendCells = append(sendCells, chanCellCtx(c, x.Chan, 0))
 						if s&okE == 0 {
 							obl.violate(kSend, x.Pos(), "the worker reports the job as terminated on a path where the runner (InsertLogs) did not return nil: the batch callbacks acknowledge writes that were not persisted", pc.Trail())
 						}
@@ -562,9 +562,9 @@ func ruleR06cd(c *Ctx) {
 							for _, st := range sel.States {
 								if st.Dir == types.RecvOnly {
 									if ri == e.Index {
-										cell := chanCell(st.Chan)
+										cell := chanCellCtx(c, st.Chan, 0)
 										for _, sc := range sendCells {
-											if sc != nil && sc == cell {
+											if sc != nil && cell != nil && (sc == cell || (sc.Pos().IsValid() && sc.Pos() == cell.Pos())) {
 												fromChan = true
 											}
 										}
@@ -640,6 +640,58 @@ func ruleR06cd(c *Ctx) {
 }
 
 // chanCell identifies a channel held in a local cell (possibly captured): the Alloc it lives in.
+// chanCellCtx: like chanCell, also through conversions (chan → chan<-) and through a parameter of a package
+// function to the argument at its (static) call sites, when they all agree.
+func chanCellCtx(c *Ctx, v ssa.Value, depth int) ssa.Value {
+	if depth > 4 || v == nil {
+		return nil
+	}
+	switch x := v.(type) {
+	case *ssa.ChangeType:
+		return chanCellCtx(c, x.X, depth+1)
+	case *ssa.Convert:
+		return chanCellCtx(c, x.X, depth+1)
+	case *ssa.MakeChan:
+		return x
+	case *ssa.Parameter:
+		fn := x.Parent()
+		idx := paramIndex(x)
+		var cell ssa.Value
+		// call sites of every version of the function (generic body, instances): the channel is the same variable of
+		// the source, identified by its position
+		var sites []ssa.CallInstruction
+		for f := range c.AllFns {
+			if origin(f) == origin(fn) {
+				sites = append(sites, c.CallersOf(f)...)
+			}
+		}
+		for _, site := range sites {
+			if p := site.Parent(); p == nil || (p.Synthetic != "" && !strings.HasPrefix(p.Synthetic, "instance of")) {
+				continue // promoted-method and bound-method wrappers only forward their own parameters
+			}
+			args := site.Common().Args
+			if idx < 0 || idx >= len(args) {
+				return nil
+			}
+			cc := chanCellCtx(c, args[idx], depth+1)
+			if cc == nil || (cell != nil && cell.Pos() != cc.Pos()) {
+				return nil
+			}
+			cell = cc
+		}
+		return cell
+	}
+	if cell := chanCell(v); cell != nil {
+		return cell
+	}
+	if u, ok := v.(*ssa.UnOp); ok && u.Op == token.MUL {
+		if st := singleStore(u.X); st != nil {
+			return chanCellCtx(c, st, depth+1)
+		}
+	}
+	return nil
+}
+
 func chanCell(v ssa.Value) ssa.Value {
 	u, ok := v.(*ssa.UnOp)
 	if !ok || u.Op != token.MUL {
